@@ -61,7 +61,13 @@ C11(c) ==
                          LET m == SectionExprs(c.sections[k].gates, c.names)
                              r == c.sections[k].exprs
                          IN Len(m) = Len(r) /\ \A j \in 1..Len(m) : m[j][1] = r[j][1] /\ m[j][2] = CanonE(r[j][2])
-          IN <<"ok", IF ~scan THEN "scanner-model-drift" ELSE IF ~exprs THEN "expression-model-drift" ELSE "scanner-model-conforms", Len(c.sections)>>
+              \* the library's classical simulator agrees with Circuit.Run on every basis input (c.cnotsim: <<input, output>>)
+              U1 == Rows(c.nq)
+              fin1 == Run(c.gates, [q \in 1..c.nq |-> SymRows(U1, q - 1)], U1)
+              OutOf(b) == LET RECURSIVE F(_) F(q) == IF q > c.nq THEN 0 ELSE (IF b \in fin1[q] THEN Pow2(q - 1) ELSE 0) + F(q + 1) IN F(1)
+              sim == \A k \in 1..Len(c.cnotsim) : c.cnotsim[k][1] >= 0 /\ c.cnotsim[k][2] = OutOf(c.cnotsim[k][1])
+          IN <<"ok", IF ~scan THEN "scanner-model-drift" ELSE IF ~exprs THEN "expression-model-drift"
+                     ELSE IF ~sim THEN "cnotsim-disagrees-with-Circuit.Run" ELSE "scanner-model-conforms", Len(c.sections)>>
 
 ---------------------------------------------------------------------------
 (* C12.  case: gin (input gates), gin_after, gout, nq, nq_out, exc          *)
